@@ -26,7 +26,7 @@ let addr_id s =
 let () =
   let cases = read_lines Sys.argv.(1) in
   let impl = impl_table Sys.argv.(2) in
-  let n_tx = ref 0 and n_probe = ref 0 and n_edit = ref 0 in
+  let n_tx = ref 0 and n_probe = ref 0 and n_edit = ref 0 and n_connlost = ref 0 in
   List.iteri (fun k line ->
     let lines = impl_lines impl k in
     let fails = ref [] in
@@ -37,6 +37,7 @@ let () =
       let cfgw = words (String.sub line 0 bar) in
       let nsrv0 = match field cfgw "servers" with Some n -> int_of_string n | None -> 1 in
       let rot = field cfgw "rotate" = Some "1" in
+      let tcp = (match field cfgw "flags" with Some f -> List.mem "usevc" (split_on ',' f) | None -> false) in
       (* "nameserver 10.0.0.k" lines of a written resolv.conf (hex) *)
       let nameservers hex =
         let n = String.length hex / 2 in
@@ -57,15 +58,34 @@ let () =
       let mon = ref (Some (mon_init (List.map zi initial) rot)) in
       let tries = match field cfgw "tries" with Some n -> int_of_string n | None -> 3 in
       let bmon = ref (Some (bmon_init (List.map zi initial) (zi tries))) in
+      let dmon = ref (Some None) in
+      let conns = Hashtbl.create 8 in      (* socket -> (srv index, queries on it) from the last QSTATE *)
       let next_id = ref (match field cfgw "idseq" with Some n -> int_of_string n | None -> 1) in
       let tok_label = Hashtbl.create 16 in
       let user_ids = Hashtbl.create 16 in
       let seen_ids = Hashtbl.create 16 in
+      let retx = Hashtbl.create 16 in       (* ids transmitted more than once *)
       let pending_user = ref false in
       let cur_op = ref "" in
       let probes = ref 0 and edits = ref 0 and edits_inflight = ref 0 and sends = ref 0 and maxfail = ref 0 in
       let live = ref 0 in
+      let due_check () =
+        match !dmon with
+        | Some (Some a) ->
+          add_fail "not-demoted" (Printf.sprintf "op [%s]: connection to 10.0.0.%d lost with queries outstanding and no failure callback followed" !cur_op (iz a));
+          dmon := None
+        | _ -> () in
       let feed ob descr =
+        (match !dmon with
+         | None -> ()
+         | Some d ->
+           (match dmon_step d ob with
+            | Some d' -> dmon := Some d'
+            | None ->
+              add_fail "not-demoted"
+                (Printf.sprintf "op [%s]: connection to 10.0.0.%s lost with queries outstanding, but the next observation is [%s] instead of its failure callback"
+                   !cur_op (match d with Some a -> string_of_z a | None -> "?") descr);
+              dmon := None));
         (match !bmon with
          | None -> ()
          | Some b ->
@@ -84,14 +104,27 @@ let () =
           (match mon_step m ob with
            | Some m' -> mon := Some m'
            | None ->
-             add_fail (match ob with OTx (_, _, true) -> "probe-target" | _ -> "choice")
+             add_fail (match ob with
+                 | OTx (l, _, true) -> if Hashtbl.mem retx (int_of_nat l) then "probe-moved" else "probe-target"
+                 | _ -> "choice")
                (Printf.sprintf "op [%s]: %s rejected; failures by callbacks [%s]" !cur_op descr
                   (String.concat "," (List.map (fun s -> Printf.sprintf "%d:%d:%s" (iz s.sv_addr) (iz s.sv_idx) (string_of_z s.sv_fail)) m.m_servers)));
              mon := None) in
       List.iter (fun l ->
         let w = words l in
         match w with
+        | "RECVFROM" :: sk :: rest when
+            (List.mem "eof=1" rest && List.mem "rc=0" rest) ||
+            (List.mem "rc=-1" rest && not (List.exists (fun e -> List.mem ("errno=" ^ e) rest) ["EAGAIN"; "EWOULDBLOCK"; "EINTR"])) ->
+          (* the transport lost this connection (closed by the peer, reset, ICMP error) *)
+          (match Hashtbl.find_opt conns sk with
+           | Some (srv, n) when n > 0 ->
+             (match List.assoc_opt srv !srvtab with
+              | Some a -> incr n_connlost; feed (OConnLost (zi a, true)) (Printf.sprintf "connection %s to 10.0.0.%d lost" sk a)
+              | None -> ())
+           | _ -> ())
         | "OP" :: _ :: rest | "CBOP" :: rest ->
+          due_check ();
           cur_op := String.concat " " rest;
           (match rest with
            | ["setservers"; csv] ->
@@ -124,6 +157,7 @@ let () =
           (match field w "srv", field w "id" with
            | Some srv, Some id ->
              let id = int_of_string id in
+             if Hashtbl.mem seen_ids id then Hashtbl.replace retx id ();
              if not (Hashtbl.mem seen_ids id) then begin
                Hashtbl.replace seen_ids id ();
                if not (Hashtbl.mem user_ids id) && id >= !next_id then next_id := id + 1   (* a probe copy took this id *)
@@ -142,6 +176,15 @@ let () =
            | Some a, Some "0" -> feed (OFail (zi a)) (Printf.sprintf "failure of 10.0.0.%d" a)
            | Some a, Some "1" -> feed (OGood (zi a)) (Printf.sprintf "success of 10.0.0.%d" a)
            | _ -> ())
+        | "QSTATE" :: rest when (match field rest "conns" with
+                                 | Some c when String.length c >= 2 ->
+                                   Hashtbl.reset conns;
+                                   let body = String.sub c 1 (String.length c - 2) in
+                                   List.iter (fun e -> match split_on '/' e with
+                                     | [sk; srv; _; n] -> (try Hashtbl.replace conns sk (int_of_string srv, int_of_string n) with _ -> ())
+                                     | _ -> ()) (if body = "" then [] else split_on ',' body);
+                                   false
+                                 | _ -> false) -> ()
         | "QSTATE" :: rest ->
           (match field rest "srv", !mon with
            | Some s, Some m when String.length s >= 2 ->
@@ -176,12 +219,13 @@ let () =
                  (String.concat "," (List.map (fun (f, i, a) -> Printf.sprintf "%d:idx%d:f%d" a i f) keyed)))
            | None -> ())
         | _ -> ()) lines;
+      due_check ();
       let cls = if !sends = 0 then "trivial-no-query"
-        else Printf.sprintf "%s-%s-f%s%s%s" (if rot then "rot" else "norot")
+        else Printf.sprintf "%s-%s-f%s%s%s%s" (if rot then "rot" else "norot")
             (if nsrv <= 1 then "1srv" else if nsrv <= 3 then "2-3srv" else "4-8srv")
             (if !maxfail = 0 then "0" else if !maxfail <= 2 then "1-2" else "3+")
-            (if !probes > 0 then "-probe" else "")
+            (if tcp then "-tcp" else "") (if !probes > 0 then "-probe" else "")
             (if !edits_inflight > 0 then "-editinflight" else if !edits > 0 then "-edit" else "") in
       Printf.printf "CASE %d %s\n" k cls;
       List.iter (fun (kind, s) -> Printf.printf "FAIL %d %s %s\n" k kind s) (List.rev !fails)) cases;
-  Printf.printf "STAT transmissions %d\nSTAT probes %d\nSTAT edits %d\n" !n_tx !n_probe !n_edit
+  Printf.printf "STAT transmissions %d\nSTAT probes %d\nSTAT edits %d\nSTAT connections-lost %d\n" !n_tx !n_probe !n_edit !n_connlost
